@@ -4,7 +4,7 @@ from symx.api import And, Iff, Implies, Instance, Ite, Not, Or
 META = {
     "level": "model_checking",
     "bounds": {
-        "history": "3 handlers with behaviours from a concrete catalogue, histories of 3 operations (4 in the thorough tier for the plain and disconnect-self catalogues; the other catalogues did not finish at 4 within the budget); each operation's kind and target are solver-chosen "
+        "history": "3 handlers with behaviours from a concrete catalogue, optionally connected beforehand in a given order (the same handler twice with another in between), a final emit after every history, histories of 3 operations (4 in the thorough tier for the plain and disconnect-self catalogues; the other catalogues did not finish at 4 within the budget); each operation's kind and target are solver-chosen "
                    "selectors (connect / disconnect by arguments / disconnect by key / emit a registered signal / emit another registered signal / connect to an unregistered name / "
                    "drop the weak argument of a handler and collect garbage)",
     },
@@ -27,11 +27,13 @@ def instances(tier):
             if q and weak and beh not in (("plain", "plain", "plain"), ("plain", "disc_prev", "plain")):
                 continue
             out.append(Instance("hist.%s.%s" % ("-".join(beh), "weak" if weak else "strong"), "h_hist", {"beh": list(beh), "weak": weak, "L": 4 if (not q and not weak and beh in (("plain", "plain", "plain"), ("plain", "disc_self", "plain"))) else 3}, timeout=600 if q else 3000))
+    for pre in ([0, 1, 0], [0, 0, 1], [1, 0, 2, 0]):
+        out.append(Instance("hist.dup%s.strong" % "".join(map(str, pre)), "h_hist", {"beh": ["plain", "plain", "plain"], "weak": False, "L": 2 if q else 3, "pre": pre}, timeout=600 if q else 3000))
     out.append(Instance("gc", "h_gc", {}, timeout=120))
     return out
 
 
-def h_hist(I, beh, weak, L):
+def h_hist(I, beh, weak, L, pre=()):
     import gc
 
     from urwid import signals as S
@@ -59,7 +61,8 @@ def h_hist(I, beh, weak, L):
 
     def mk(i):
         def h(*args):
-            calls.append((depth[0], i, args))
+            # (the weak argument is recorded by its number: keeping the object would keep it alive)
+            calls.append((depth[0], i, tuple(("ARG", a.n) if isinstance(a, Arg) else a for a in args)))
             b = beh[i] if i < n else "plain"
             if b == "disc_self":
                 do_disconnect_key(i)
@@ -115,7 +118,7 @@ def h_hist(I, beh, weak, L):
     def do_emit(name):
         depth[0] += 1
         start_model = list(model)
-        wa0 = dict(wargs)
+        wa0 = {k: None for k in wargs}   # (no references to the weak arguments are kept)
         c0 = len(calls)
         m0 = len(mods)
         res = sigs.emit(sender, name, "x", 7)
@@ -123,7 +126,14 @@ def h_hist(I, beh, weak, L):
         emits.append((name, depth[0] + 1, start_model, list(model), calls[c0:], res, mods[m0:], set(dead), dict(wa0)))
         return res
 
-    for step in range(L):
+    for i in pre:
+        do_connect(i)   # connections that exist before the history (the same handler may be connected more than once)
+    for step in range(L + 1):
+        if step == L:
+            # a final emit shows which handlers the history left connected
+            if depth[0] == 0:
+                do_emit("a")
+            break
         opts = [(k, t) for k in ("connect", "disc_args", "disc_key") + (("drop_weak",) if weak else ()) for t in range(n)] + [("emit_a", 0), ("emit_b", 0), ("connect_bad", 0)]
         kind, tgt = I.choice("op%d" % step, opts)
         if kind == "connect":
@@ -165,10 +175,11 @@ def h_hist(I, beh, weak, L):
         for k, hid in stay:
             I.check("staying_handler_called_exactly_once", called_ids.count(hid) == stay_ids.count(hid) or any(m[1] == hid for m in start if m not in stay) or hid == 99)
         order = [h for h in called_ids if h in stay_ids]
-        I.check("connection_order", order == [h for h in stay_ids if h in order][: len(order)] or len(set(stay_ids)) != len(stay_ids))
+        # (a handler connected twice cannot be told apart in the call log: order is asserted when the connections are distinct handlers)
+        I.check("connection_order", order == [h for h in stay_ids if h in order][: len(order)] or len(set(start_ids)) != len(start_ids))
         for c in top:
             I.check("never_called_unless_connected_at_some_point_of_the_emit", c[1] in start_ids or any(m[0] == "connect" and m[1] == c[1] for m in ms))
-            exp = ((wargs_then[c[1]],) if (weak and c[1] in wargs_then) else ()) + ("u%d" % c[1], "x", 7)
+            exp = ((("ARG", c[1]),) if (weak and c[1] in wargs_then) else ()) + ("u%d" % c[1], "x", 7)
             I.check("arguments", len(c[2]) == len(exp) and all(a is b or a == b for a, b in zip(c[2], exp)))
             I.check("dead_weak_arg_never_called", c[1] not in dead_then)
         I.check("result_is_or_of_truthiness", bool(res) == any(beh[c[1]] == "true" for c in top if c[1] < n))
